@@ -10,8 +10,8 @@ THEOREMS = ["C14_ref_roundtrip", "C14_ref_sound", "C14_ref_truncated", "C14_pars
             "C14_not_in_a_silent_msg", "C14_truncated_silent", "C14_truncated_silent_msg", "C14_truncated_silent_any",
             "C14_response_silent", "C14_proto_udp_monitor", "C14_proto_udp_monitor_any", "C14_proto_udp_structured",
             "C14_proto_udp_not_in_a_silent", "C14_proto_udp_truncated_silent", "C14_frame_udp", "C14_examples",
-            "C14_examples_negative", "C14_monitor_sensitive", "C14_examples_frames", "Env.the_env_ok"]
-MONITORS = ["C14udp"]
+            "C14_examples_negative", "C14_monitor_sensitive", "C14_examples_frames", "Current.C14_ref_monitor_is_table_monitor", "Current.C14_current_frame_udp_ref", "Current.C14_current_frame_udp_ref_strict", "Current.C14_ref_examples", "Env.the_env_ok"]
+MONITORS = ["C14udp", "C14udp_ref"]
 RULE = ("DNS messages built by an independent Python encoder and sent as UDP datagrams: ids with every high byte 0..255 "
         "and the values that begin like another protocol's signature; flag words (all opcodes x RD x every other bit); "
         "0..40 questions (thorough: up to 300); label layouts (lengths 1..63, arbitrary bytes incl. 0x00, '.', 0xC0; "
@@ -24,9 +24,11 @@ RULE = ("DNS messages built by an independent Python encoder and sent as UDP dat
         "script carries a query of the positive clause")
 TRUSTED = ["Coq 8.16.1 kernel + vm_compute", "extraction (ExtrOcamlBasic) + ocaml/model_run.ml", "harness/*.py",
            "Rust hook verif_driver.rs", "pnet accessor semantics as modelled"]
-ASSUMPTIONS = ["'not itself completing another protocol's signature' is evaluated by the extracted monitor on the compiled "
-               "signature table of the implementation (udp_id) and by the Python oracle on the published signature list; "
-               "their agreement outside the known class is property C10"]
+ASSUMPTIONS = ["'not itself completing another protocol's signature' is evaluated twice: by ok_C14_udp on the compiled signature "
+               "table of the implementation (udp_id) and by ok_C14_udp_ref on the published signature list (ref_udp), where "
+               "datagrams of C10's refined known class are excluded (none of them is an in-scope DNS query that the "
+               "published list leaves unidentified, except the 23/27-byte RPC prefixes of the K0_end family); the Python "
+               "oracle uses the published list as well"]
 
 KEY = (0x14, 0x41)
 
